@@ -454,7 +454,15 @@ func (d *YAMLDoc) YAMLText(perm int64) string {
 			fmt.Fprintf(&b, "%s:\n", k)
 			for _, kk := range permute(SortedKeys(v), perm) {
 				fmt.Fprintf(&b, "  %s:\n", yq(kk))
-				for _, x := range v[kk] {
+				// (the injected attributes of a message form a set: their order in the list is a configuration order too)
+				idx := make([]string, len(v[kk]))
+				for i := range idx {
+					idx[i] = fmt.Sprintf("%03d", i)
+				}
+				for _, is := range permute(idx, perm) {
+					var xi int
+					fmt.Sscanf(is, "%d", &xi)
+					x := v[kk][xi]
 					fmt.Fprintf(&b, "    - name: %s\n      type: %s\n", yq(x.Name), yq(x.Type))
 					if x.Required {
 						fmt.Fprintf(&b, "      required: true\n")
